@@ -28,6 +28,7 @@ META = dict(
          "identifier) and D10 ([None] for two candidates) were repaired with fix: commits.",
     technique="guard-dominance + def-use rules at the creation sites, sibling agreement of constructor arguments, None-discipline obligations",
 )
+META["text"] += " Also (R3) a child's best_ancestor is the least-estimate ancestor at both sites that create children; (R6) bookkeeping the subsumption pass relies on: a discarded equivalent / subsumed assertion hands its rules_out to the one kept, and NEBAssertion.subsumes disposes of a ruled-out tail iff the loser outlasts the winner in it (decision table); (R7 = C14.R4) vote_for_cand, whose sums the NEN tallies are, is 1 iff the candidate stands, is ranked, and no other standing candidate is ranked before it."
 
 
 def run(chk):
